@@ -283,7 +283,9 @@ func TestC13(t *testing.T) {
 		}
 		rec.Class(fmt.Sprintf("goroutines:%d", len(c.Workers)))
 		rec.ClassIf(c.Dynamic != nil, "shared:dynamicRef-topology+caching-loader")
-		rec.Eval(nt, ev.JSON(c), func() any { return map[string]any{"docs": c.Docs, "workers": c.Workers, "types": len(c.Types), "dynamic": c.Dynamic != nil} })
+		rec.Eval(nt, ev.JSON(c), func() any {
+			return map[string]any{"docs": c.Docs, "workers": c.Workers, "types": len(c.Types), "dynamic": c.Dynamic != nil}
+		})
 		if fl := checkC13(c, rec); fl != nil {
 			if isHarnessFailure(fl) {
 				rec.Inconclusive(fl.Msg)
